@@ -484,3 +484,68 @@ def find_split_parts(term):
         if sp:
             out.append(sp)
     return out
+
+
+def fmt_site_for_call(fx, body, bb):
+    """the AST format-args site expanded at the same call site as the MIR call in block bb"""
+    sp = body.blocks[bb]["tspan"]
+    for st in fx.fmt_sites:
+        e = st["espan"]
+        if (e["file"], e["line"], e["col"], e["eline"], e["ecol"]) == (sp["file"], sp["line"], sp["col"], sp["eline"], sp["ecol"]):
+            return st
+    return None
+
+
+def fmt_call_args(t):
+    """argument terms of an Arguments::new(...) call term, in array order (inside new_display/new_lower_hex/...)"""
+    arr = [s for s in subterms(t) if s[0] == "agg" and s[1] == "array"]
+    if not arr:
+        return []
+    out = []
+    for o in arr[0][4]:
+        if is_call(o) and "Argument" in o[1]:
+            out.append((mir.norm_path(o[1]).split("::")[-1], call_args(o)[0]))
+        else:
+            out.append(("?", o))
+    return out
+
+
+def loop_chain(body, bb):
+    """loop headers containing bb, outermost first"""
+    hs = [h for h, blks in body.loops.items() if bb in blks]
+    return sorted(hs, key=lambda h: -len(body.loops[h]))
+
+
+def loop_source_fields(body, header, names):
+    """which of the given field names the iterator driving a loop header was created from"""
+    t = body.blocks[header]["term"]
+    if t["k"] != "call":
+        return None
+    # find the iterator local and look at how it was initialised (statically, any path)
+    return None
+
+
+def is_index_call(t):
+    """<X as Index<_>>::index(...) / impl Index for [T] / str ... (any indexing operator call)"""
+    return is_call(t) and mir.norm_path(t[1]).endswith("::index") and "Index" in t[1]
+
+
+def top_field(t):
+    """name of the outermost struct field a borrowed/iterated value was taken from"""
+    while isinstance(t, tuple) and t:
+        k = t[0]
+        if k == "field":
+            return t[3]
+        if k in ("ref", "refmut", "deref"):
+            t = t[1]
+        elif k == "loc" and len(t) > 2:
+            t = t[2]
+        elif k == "havoc" and len(t) > 3:
+            t = t[3]
+        elif k == "call" and t[3]:
+            t = t[3][0]
+        elif k == "downcast":
+            t = t[1]
+        else:
+            return None
+    return None
